@@ -179,8 +179,19 @@ pub struct SeqCase {
     pub salt: u32,
 }
 
+/// at most 48 elements of a long list (messages about long sequences stay readable)
+fn sh<T: std::fmt::Debug>(v: &[T]) -> String {
+    if v.len() <= 48 {
+        format!("{v:?}")
+    } else {
+        format!("{:?} ... ({} elements)", &v[..48], v.len())
+    }
+}
+
 fn seq_strategy(_t: Tier) -> BoxedStrategy<SeqCase> {
-    (0usize..40, prop_oneof![(-2.0f64..2.0).prop_map(|l| 10f64.powf(l)), 0.05f64..1.5])
+    // mostly short; one in 25 a few hundred symbols (beyond any batch width), one in 300 more than
+    // 2^16 bits (longer than the longest frame of the toolbox's own codes)
+    (prop_oneof![270 => 0usize..40, 12 => 40usize..700, 1 => 21_846usize..22_000], prop_oneof![(-2.0f64..2.0).prop_map(|l| 10f64.powf(l)), 0.05f64..1.5])
         .prop_flat_map(|(sym, sigma)| (proptest::collection::vec(0u8..=1, 3 * sym), Just(sigma), 0..LAYOUTS, any::<u32>()))
         .prop_map(|(bits, sigma, layout, salt)| SeqCase { bits, sigma: Fx(sigma), layout, salt })
         .boxed()
@@ -206,7 +217,7 @@ fn check_seq(c: &SeqCase, p: &mut Probe) -> Check {
     }
     let l = Psk8Demodulator::from_noise_sigma(sigma).demodulate(&s);
     let hd: Vec<u8> = l.iter().map(|&x| u8::from(x <= 0.0)).collect();
-    ensure!(hd == c.bits, "psk8-roundtrip", "8PSK hard decisions {hd:?} differ from the bits {:?} (sigma {sigma})", c.bits);
+    ensure!(hd == c.bits, "psk8-roundtrip", "8PSK hard decisions {} differ from the bits {} (sigma {sigma})", sh(&hd), sh(&c.bits));
     // whole noisy sequences, value by value: every symbol's LLRs equal the own exact posterior
     // log-ratios of that sample alone (no dependence on position in, or length of, the slice)
     let unit = |x: u64| (x >> 11) as f64 / (1u64 << 53) as f64 - 0.5;
@@ -236,11 +247,11 @@ fn check_seq(c: &SeqCase, p: &mut Probe) -> Check {
         ensure!(lp.len() == 3 * part.len() && lp.iter().zip(&ln[3..]).all(|(a, b)| a.to_bits() == b.to_bits()), "psk8-llr-slice-dependence", "the LLRs of a symbol depend on where in the slice it stands (sequence of {} symbols vs its tail)", noisy.len());
     }
     let s = guarded(|| with_layout(&gbits, GF2::one(), lay, |v| if c.salt & 2 == 2 { BpskModulator::default().modulate(&v) } else { BpskModulator::new().modulate(&v) })).map_err(|e| Fail::new("panic", format!("BPSK modulate panicked (bit array layout {}): {e}", layout_name(lay))))?;
-    ensure!(s.len() == c.bits.len() && s.iter().zip(&c.bits).all(|(x, &b)| *x == if b == 1 { 1.0 } else { -1.0 }), "bpsk-map", "BPSK modulator maps {:?} to {s:?} (bit array layout {})", c.bits, layout_name(lay));
+    ensure!(s.len() == c.bits.len() && s.iter().zip(&c.bits).all(|(x, &b)| *x == if b == 1 { 1.0 } else { -1.0 }), "bpsk-map", "BPSK modulator maps {} to {} (bit array layout {})", sh(&c.bits), sh(&s.to_vec()), layout_name(lay));
     let bd = if c.salt & 8 == 8 { BpskDemodulator::new(sigma) } else { BpskDemodulator::from_noise_sigma(sigma) };
     let l = bd.demodulate(&s);
     let hd: Vec<u8> = l.iter().map(|&x| u8::from(x <= 0.0)).collect();
-    ensure!(hd == c.bits, "bpsk-roundtrip", "BPSK hard decisions {hd:?} differ from the bits {:?}", c.bits);
+    ensure!(hd == c.bits, "bpsk-roundtrip", "BPSK hard decisions {} differ from the bits {}", sh(&hd), sh(&c.bits));
     let noisy_b: Vec<f64> = s.iter().enumerate().map(|(k, x)| x + unit(splitmix(c.salt as u64 ^ 0x77 ^ (k as u64) << 24)) * (3.0 * sigma).min(50.0)).collect();
     let lb = bd.demodulate(&noisy_b);
     ensure!(lb.len() == noisy_b.len(), "llr-count", "BPSK: {} symbols give {} LLRs", noisy_b.len(), lb.len());
@@ -250,6 +261,8 @@ fn check_seq(c: &SeqCase, p: &mut Probe) -> Check {
     }
     p.class_if(lay % LAYOUTS != 0, "non-standard-layout");
     p.class_if(c.bits.len() / 3 % 4 != 0, "symbol-count-not-multiple-of-4");
+    p.class_if(c.bits.len() >= 120, "forty-symbols-or-more");
+    p.class_if(c.bits.len() > 65536, "more-than-65536-bits");
     if c.bits.len() >= 6 {
         p.nontrivial();
     }
@@ -277,7 +290,7 @@ pub fn property() -> Property {
             }),
             Box::new(Sub {
                 name: "roundtrip",
-                rule: "bit sequences of 0..39 symbols: every symbol equals the own mapping of its three bits in order (bit order within a symbol), hard decisions (LLR <= 0 -> 1) of the demodulated noiseless symbols return the sequence for any sigma, for 8PSK and BPSK; modulators built by new() or Default::default(); the bit array is handed to the modulators in six memory layouts (owned, reversed view, strided views, offset sub-range); the whole sequence plus bounded pseudo-noise is demodulated in one call and every LLR compared with the own exact posterior log-ratio of its sample (8PSK: 64 eps (|r|/sigma^2 + 1), BPSK: 4 eps relative), and the same demodulator object on the tail of the slice returns bit-identical values; non-trivial = at least two symbols",
+                rule: "bit sequences of 0..39 symbols (one in 25: 40..699 symbols, one in 300: more than 2^16 bits): every symbol equals the own mapping of its three bits in order (bit order within a symbol), hard decisions (LLR <= 0 -> 1) of the demodulated noiseless symbols return the sequence for any sigma, for 8PSK and BPSK; modulators built by new() or Default::default(); the bit array is handed to the modulators in six memory layouts (owned, reversed view, strided views, offset sub-range); the whole sequence plus bounded pseudo-noise is demodulated in one call and every LLR compared with the own exact posterior log-ratio of its sample (8PSK: 64 eps (|r|/sigma^2 + 1), BPSK: 4 eps relative), and the same demodulator object on the tail of the slice returns bit-identical values; non-trivial = at least two symbols",
                 cases: |t| t.pick(300_000, 10_000_000),
                 strategy: seq_strategy,
                 check: check_seq,
